@@ -1251,7 +1251,7 @@ def build_fn(ctx, unit, fs):
                         if n_ == 1:
                             raise
                         break
-                    multi.append((s if where == "before" else e, [Seg("\n" + body + "\n", ("ins", fn_label, label + f"#{n_}", None))], 1))
+                    multi.append((s if where == "before" else e, [Seg("\n" + body + "\n", ("ins", fn_label, label + f"#{n_}", popts.get("tags")))], 1))
                     n_ += 1
                 continue
             if where in ("before", "after"):
@@ -1281,7 +1281,7 @@ def build_fn(ctx, unit, fs):
                 raise UnitSyntaxError(f"unknown proof position {where}")
             raw = popts.get("raw")
             body = text if raw else "proof {\n" + text + "\n}"
-            multi.append((off, [Seg("\n" + body + "\n", ("ins", fn_label, label, None))], 1))
+            multi.append((off, [Seg("\n" + body + "\n", ("ins", fn_label, label, popts.get("tags")))], 1))
         for rule, anchor, nth, ropts in fs.rewrites:
             if ropts.get("all"):
                 n_ = 1
